@@ -2,6 +2,8 @@
 // ninja invocations), depth-first search over the environment's answers inside every invocation
 // (completion order incl. simultaneous completions, interrupts, ...), monitors for the
 // properties on every execution.  See DESIGN.md section 3.1.
+#include <fcntl.h>
+#include <signal.h>
 #include <stdio.h>
 #include <string.h>
 #include <time.h>
@@ -55,6 +57,48 @@ struct World {
   // C10/C11: the same history applied to the twin manifest (default schedules)
   vfs::Disk twin;
 };
+
+// Breadcrumb for the fatal-signal handler: which execution is running right now.  A crash inside
+// ninja (assertion, heap corruption, segfault) becomes a replayable verdict instead of a dead worker.
+struct Crumb {
+  long scenario_index = -1;
+  const vector<Step>* hist = nullptr;
+  int op = -1;
+  const vector<int>* prefix = nullptr;
+};
+static Crumb g_crumb;
+
+static void CrashHandler(int sig) {
+  static char buf[8192];
+  size_t n = 0;
+  n += snprintf(buf + n, sizeof(buf) - n, "\nNXCRASH {\"signal\":%d,\"scenario_index\":%ld,\"history\":[", sig, g_crumb.scenario_index);
+  bool any = false;
+  if (g_crumb.hist) {
+    for (auto& s : *g_crumb.hist) {
+      if (n > sizeof(buf) - 512) break;
+      n += snprintf(buf + n, sizeof(buf) - n, "%s{\"op\":%d,\"choices\":[", any ? "," : "", s.op);
+      any = true;
+      for (size_t i = 0; i < s.choices.size() && n < sizeof(buf) - 256; i++)
+        n += snprintf(buf + n, sizeof(buf) - n, i ? ",%d" : "%d", s.choices[i]);
+      n += snprintf(buf + n, sizeof(buf) - n, "]");
+      if (s.io_fail_at >= 0) n += snprintf(buf + n, sizeof(buf) - n, ",\"io_fail_at\":%lld", (long long)s.io_fail_at);
+      if (s.crash_at >= 0)
+        n += snprintf(buf + n, sizeof(buf) - n, ",\"crash_at\":%lld,\"tear\":%d,\"orphans\":%u", (long long)s.crash_at, s.tear, s.orphans);
+      n += snprintf(buf + n, sizeof(buf) - n, "}");
+    }
+  }
+  if (g_crumb.op >= 0) {
+    n += snprintf(buf + n, sizeof(buf) - n, "%s{\"op\":%d,\"choices\":[", any ? "," : "", g_crumb.op);
+    if (g_crumb.prefix)
+      for (size_t i = 0; i < g_crumb.prefix->size() && n < sizeof(buf) - 256; i++)
+        n += snprintf(buf + n, sizeof(buf) - n, i ? ",%d" : "%d", (*g_crumb.prefix)[i]);
+    n += snprintf(buf + n, sizeof(buf) - n, "]}");
+  }
+  n += snprintf(buf + n, sizeof(buf) - n, "]}\n");
+  ssize_t ignored = write(fcntl(101, F_GETFD) >= 0 ? 101 : 2, buf, n);   // 101: the real stderr (nx::InitCapture)
+  (void)ignored;
+  _exit(97);
+}
 
 static const char* kLog = ".ninja_log";
 static const char* kDeps = ".ninja_deps";
@@ -2021,7 +2065,9 @@ struct Explorer {
     function<void(const vector<int>&)> rec = [&](const vector<int>& prefix) {
       if (TimeUp()) { st.complete = false; return; }
       vfs::Disk d = w.disk;
+      g_crumb.hist = &w.hist; g_crumb.op = opi; g_crumb.prefix = &prefix;
       RunResult r = RunNinja(&d, op.cfg, prefix);
+      g_crumb.prefix = nullptr;
       st.invocations++;
       st.schedules++;
       nsched++;
@@ -2451,6 +2497,9 @@ static J HistToJson(const Scenario& sc, const vector<Step>& h) {
 int main(int argc, char** argv) {
   vx::Args a(argc, argv);
   nx::InitCapture();
+  if (!a.Has("replay")) {
+    for (int sig : {SIGSEGV, SIGABRT, SIGBUS, SIGFPE, SIGILL}) signal(sig, CrashHandler);
+  }
   string file = a.Get("scenarios");
   long shard = a.GetInt("shard", 0), nshards = a.GetInt("nshards", 1);
   set<string> props;
@@ -2521,6 +2570,8 @@ int main(int argc, char** argv) {
     string err;
     if (!LoadScenario(sj, &sc, &err)) { fprintf(stderr, "scenario %ld: %s\n", idx, err.c_str()); return 2; }
     Explorer ex(sc);
+    g_crumb = Crumb();
+    g_crumb.scenario_index = idx;
     ex.props = props;
     ex.dev_bound = (int)a.GetInt("devbound", -1);
     if (budget > 0) ex.deadline = t0 + budget;
